@@ -139,6 +139,7 @@ type FnCtx struct {
 	callsiteHit map[int]bool
 	scount      map[string]int
 	dynCalls    int
+	resCount    map[string]int
 	boxes       map[Sort]bool
 	lits        map[string]string
 	litSeq      []string
@@ -862,8 +863,12 @@ func (c *FnCtx) translate() {
 	if c.Spec != nil && c.inl == nil {
 		for i, cs := range c.Spec.Callsites {
 			if !c.callsiteHit[i] {
-				// a ghost assertion that is attached to no call would be vacuous
-				c.E.specError(c.Name, cs.Cl, fmt.Errorf("callsite clause matches no static call of %q in this function", cs.Callee))
+				// the contract demands the assertion at every call of the callee in this function, and that
+				// there is one: a ghost assertion attached to no call is an undischarged obligation
+				c.curBlk = 0
+				o := c.oblige("callsite-missing", "false", fmt.Sprintf("%s/c%d: no static call of it in this function", cs.Callee, i+1), token.NoPos)
+				o.Props = cs.Cl.Props
+				o.Pos = cs.Cl.Where
 			}
 		}
 	}
